@@ -13,6 +13,7 @@ CONSTANTS
   FollowAppend = TRUE
   ResyncChecksRound = TRUE
   ResyncDeletesFirst = TRUE
+  CheckZeroIsClock = FALSE
   Aborts = TRUE
   PinsOperatorHash = TRUE
   MaxAgg = 0
